@@ -15,6 +15,7 @@ package main
 import (
 	"math/big"
 	"strconv"
+	"strings"
 )
 
 var primeWords = [10]uint64{0x3fffc2f, 0x3ffffbf, 0x3ffffff, 0x3ffffff, 0x3ffffff, 0x3ffffff, 0x3ffffff, 0x3ffffff, 0x3ffffff, 0x3fffff}
@@ -29,7 +30,7 @@ func init() {
 		if len(res) < 4 || res[:3] != "ok " {
 			return "bad-op"
 		}
-		got, ok := parseFV(res[3:])
+		got, ok := parseFV(strings.TrimSuffix(res[3:], " S=1"))
 		if !ok {
 			return "bad-op"
 		}
@@ -111,6 +112,74 @@ func init() {
 			return valueEq(new(big.Int).Exp(valueOf(A), e, fldP))
 		}
 		return "bad-op"
+	}
+}
+
+// minimal magnitude of a representation, computed from its words (independent of the Lean side)
+func minMagOf(f fv) uint64 {
+	var m uint64
+	for i, w := range f {
+		unit := uint64(68157440) // 2^26 + 2^20
+		if i == 9 {
+			unit = 4194304 // 2^22
+		}
+		need := (uint64(w) + unit - 1) / unit
+		if need > m {
+			m = need
+		}
+	}
+	return m
+}
+
+func init() {
+	// field.contract <field op line>: is the operation invoked within its documented magnitude contract on these operands?
+	extraOps["field.contract"] = func(a []string) string {
+		if len(a) < 2 {
+			return "bad-op"
+		}
+		A, ok := parseFV(a[1])
+		if !ok {
+			return "bad-op"
+		}
+		var B fv
+		k := uint64(0)
+		if len(a) >= 3 {
+			if b, ok := parseFV(a[2]); ok {
+				B = b
+			} else if v, err := strconv.ParseUint(a[2], 10, 64); err == nil {
+				k = v
+			} else {
+				return "bad-op"
+			}
+		}
+		within := true
+		switch a[0] {
+		case "field.add", "field.add2":
+			within = minMagOf(A)+minMagOf(B) <= 63
+		case "field.addint":
+			within = minMagOf(A)+1 <= 63 && k <= 68157440
+		case "field.neg", "field.negval":
+			within = minMagOf(A) <= k && k <= 63
+		case "field.mulint":
+			within = k*minMagOf(A) <= 63
+		case "field.mul", "field.mul2":
+			within = minMagOf(A) <= 8 && minMagOf(B) <= 8
+		case "field.sq", "field.sqval", "field.inv", "field.sqrt":
+			within = minMagOf(A) <= 8
+		case "field.normalise":
+			for _, w := range A {
+				if uint64(w) > 4292870144 {
+					within = false
+				}
+			}
+		case "field.set", "field.setint":
+		default:
+			return "bad-op"
+		}
+		if within {
+			return "ok within"
+		}
+		return "ok violated"
 	}
 }
 
